@@ -74,14 +74,14 @@ theorem DispL.dob_kind {q : Party} {l : Nat} {msg : Msg} {q' : Party} {s : Sent}
     counter (FIFO mode), or in non-FIFO mode -/
 theorem DispL.ldel_sent {q : Party} {l : Nat} {msg : Msg} {q' : Party} {s : Sent} {o : Outcome}
     (h : DispL H T q l msg q' s o) :
-    ∀ x ∈ s, x.2.action = lDeliver → WF q msg ∧ x.2.tag = msg.tag ∧ x.2.id = msg.id ∧ q' = q ∧
+    ∀ x ∈ s, x.2.action = lDeliver → WF q msg ∧ msg.action = lRetrieve ∧ x.2.tag = msg.tag ∧ x.2.id = msg.id ∧ q' = q ∧
       o = .idle ∧ ((q.fifo = true ∧ msg.seq < q.dS msg.sender.toNat) ∨ q.fifo = false) := by
-  have nil1 : ∀ x ∈ ([] : Sent), x.2.action = lDeliver → WF q msg ∧ x.2.tag = msg.tag ∧
+  have nil1 : ∀ x ∈ ([] : Sent), x.2.action = lDeliver → WF q msg ∧ msg.action = lRetrieve ∧ x.2.tag = msg.tag ∧
       x.2.id = msg.id ∧ q' = q ∧
       o = .idle ∧ ((q.fifo = true ∧ msg.seq < q.dS msg.sender.toNat) ∨ q.fifo = false) := by
     intro x hx; cases hx
   have all1 : ∀ (m : Msg), m.action ≠ lDeliver → ∀ x ∈ sendAll q.n m, x.2.action = lDeliver →
-      WF q msg ∧ x.2.tag = msg.tag ∧ x.2.id = msg.id ∧ q' = q ∧
+      WF q msg ∧ msg.action = lRetrieve ∧ x.2.tag = msg.tag ∧ x.2.id = msg.id ∧ q' = q ∧
       o = .idle ∧ ((q.fifo = true ∧ msg.seq < q.dS msg.sender.toNat) ∨ q.fifo = false) := by
     intro m hm x hx ha; rw [(mem_sendAll_iff.1 hx).2] at ha; exact absurd ha hm
   cases h with
@@ -113,7 +113,185 @@ theorem DispL.ldel_sent {q : Party} {l : Nat} {msg : Msg} {q' : Party} {s : Sent
     rcases hx with hx | ⟨mb, rfl, _, hc⟩
     · have ha' : x.action = lDeliver := ha
       rw [hx] at ha'; exact absurd ha' (by decide)
-    · exact ⟨wf, rfl, rfl, rfl, rfl, hc⟩
+    · exact ⟨wf, hact, rfl, rfl, rfl, rfl, hc⟩
   | _ => exact nil1
+
+/-- some honest party has fixed a digest for `τ` (it counted `2t+1` r-ready) -/
+def Seen (c : Cfg) (s : Sys) (τ : Tag) : Prop :=
+  ∃ i' d, c.honest i' ∧ aGet (s.st i').dbar τ = some d
+
+theorem seen_mono {s s' : Sys} (hm : Micro H T c s s') {τ : Tag} (h : Seen c s τ) : Seen c s' τ := by
+  obtain ⟨i', d, h1, h2⟩ := h
+  exact ⟨i', d, h1, dbar_keeps hm h2⟩
+
+structure TotInv (c : Cfg) (s : Sys) : Prop where
+  dl : ∀ i τ v, (i, τ, v) ∈ s.dl → Seen c s τ
+  buf : ∀ i, c.honest i → ∀ e ∈ (s.st i).deliverBuf, e.id = c.ID → Seen c s e.tag
+  ldel : c.fifo = true → ∀ l, c.honest l → ∀ dst m, (l, dst, m) ∈ s.log → m.action = lDeliver →
+    m.id = c.ID → ∃ v, (l, m.tag, v) ∈ s.dl
+
+theorem totInv_init (c : Cfg) : TotInv c (Sys.init c) where
+  dl := by intro i τ v h; cases h
+  buf := by intro i _ e h; cases h
+  ldel := by intro _ l _ dst m h; cases h
+
+/-- the source of a deliver-or-buffer call yields `Seen` after the step -/
+theorem src_seen (hy : Hyp H c) {s : Sys} (hI : Inv H c s) (ih : TotInv c s) {i : Nat}
+    (hi : c.honest i) {l : Nat} {msg : Msg} {q' : Party} {sd : Sent} {o : Outcome}
+    (hl : l < c.n) (hin : l ∈ c.byz ∨ (l, i, msg) ∈ s.log)
+    (hD : DispL H T (s.st i) l msg q' sd o)
+    (hI' : Inv H c ⟨upd s.st i q', s.log ++ tagMsgs i sd, s.bc, dlAfter s.dl i msg.tag o⟩)
+    (hid : msg.id = c.ID) (hsrc : Src (s.st i) l msg q') :
+    Seen c ⟨upd s.st i q', s.log ++ tagMsgs i sd, s.bc, dlAfter s.dl i msg.tag o⟩ msg.tag := by
+  have hP := hI.parties i hi
+  have hm : Micro H T c s _ := Micro.disp s i hi l msg hl hin q' sd o hD
+  rcases hsrc with h | ⟨hact, hretr, i0, hi0, hdel⟩
+  · cases hd : aGet q'.dbar msg.tag with
+    | none => exact absurd hd h
+    | some d => exact ⟨i, d, hi, by show aGet (upd s.st i q' i).dbar _ = _; rw [upd_same]; exact hd⟩
+  · -- l-deliver path: one of the agreeing answers comes from an honest party that delivered
+    have hfifo : c.fifo = true := by
+      cases hf : c.fifo with
+      | true => rfl
+      | false => rw [hP.nfRetr hf] at hretr; cases hretr
+    obtain ⟨hmem, hfl, hnum⟩ := agreeFind_some _ _ _ _ _ hi0
+    have hlt : i0 < (ldelPost (s.st i) l msg).n := List.mem_range.1 hmem
+    obtain ⟨S, hS1, hS2⟩ := agreeNum_wit _ msg.tag (ldelBuf (s.st i) l msg) i0 hlt hfl
+    have hn := hy.hn
+    have hb := hy.hb
+    have hcard : c.byz.card < S.card := by
+      rw [hS1]
+      have h1 : (ldelPost (s.st i) l msg).n = c.n := hP.cn
+      have h2 : (ldelPost (s.st i) l msg).t = c.t := hP.ct
+      rw [h1, h2] at hnum
+      omega
+    obtain ⟨l', hl'S, hl'b⟩ := exists_honest_of_card (c := c) S hcard
+    obtain ⟨hl'n, hl'f, _⟩ := hS2 l' hl'S
+    have hl'h : c.honest l' := ⟨by rw [← hP.cn]; exact hl'n, hl'b⟩
+    have hP' := hI'.parties i hi
+    obtain ⟨m, hm1, hm2, hm3, _⟩ := hP'.ldel l' msg.tag
+      (by show fHas (upd s.st i q' i).deliver l' msg.tag = true
+          rw [upd_same, hdel]; exact hl'f) hl'h.1 hl'b
+    -- the l-deliver message is an old one
+    have hold : (l', i, m) ∈ s.log := by
+      rcases List.mem_append.1 hm1 with h | h
+      · exact h
+      · exfalso
+        obtain ⟨_, h2⟩ := mem_tagMsgs.1 h
+        have := (hD.ldel_sent _ h2 hm2).2.1
+        rw [hact] at this; exact absurd this (by decide)
+    have hmid : m.id = c.ID := by
+      have : m.tag.id = msg.tag.id := by rw [hm3]
+      exact this.trans hid
+    obtain ⟨v, hv⟩ := ih.ldel hfifo l' hl'h i m hold hm2 hmid
+    rw [hm3] at hv
+    exact seen_mono hm (ih.dl l' msg.tag v hv)
+
+theorem totInv_step (hy : Hyp H c) {s s' : Sys} (hI : Inv H c s) (hI' : Inv H c s')
+    (hm : Micro H T c s s') (ih : TotInv c s) : TotInv c s' := by
+  have hfr := hm.frame
+  have hm0 := hm
+  cases hm with
+  | hk i0 hi0 R s0 hff hR hs0 =>
+    refine ⟨fun i τ v h => seen_mono hm0 (ih.dl i τ v h), ?_, ?_⟩
+    · intro i hi e he hid
+      refine seen_mono hm0 (ih.buf i hi e ?_ hid)
+      by_cases hi0' : i = i0
+      · subst hi0'
+        have : e ∈ (upd s.st i (hkParty (s.st i) R) i).deliverBuf := he
+        rw [upd_same] at this
+        exact List.mem_of_mem_filter this
+      · have : e ∈ (upd s.st i0 (hkParty (s.st i0) R) i).deliverBuf := he
+        rw [upd_ne _ _ _ _ hi0'] at this; exact this
+    · intro hf l hl dst m hlog ha hid
+      rcases List.mem_append.1 hlog with h | h
+      · exact ih.ldel hf l hl dst m h ha hid
+      · have := hs0 _ (mem_tagMsgs.1 h).2
+        rw [ha] at this; exact absurd this (by decide)
+  | bcast i0 hi0 v rnd =>
+    refine ⟨fun i τ v h => seen_mono hm0 (ih.dl i τ v h), ?_, ?_⟩
+    · intro i hi e he hid
+      refine seen_mono hm0 (ih.buf i hi e ?_ hid)
+      have := upd_field (·.deliverBuf) s.st i0 (broadcast (s.st i0) v rnd).1 i rfl
+      rw [← this]; exact he
+    · intro hf l hl dst m hlog ha hid
+      rcases List.mem_append.1 hlog with h | h
+      · exact ih.ldel hf l hl dst m h ha hid
+      · obtain ⟨_, h2⟩ := mem_tagMsgs.1 h
+        rw [broadcast_snd] at h2
+        have := (mem_sendAll_iff.1 h2).2
+        simp only at this
+        rw [this] at ha
+        exact absurd ha (by simp only [bcMsg]; decide)
+  | bufDel i0 hi0 e0 rest m' hff hm' =>
+    obtain ⟨he0, hdel, hsub⟩ := findFirst_some _ _ _ _ hff
+    unfold deliverable at hdel
+    simp only [Bool.and_eq_true, decide_eq_true_eq] at hdel
+    have hP0 := hI.parties i0 hi0
+    refine ⟨?_, ?_, ?_⟩
+    · intro i τ v h
+      rcases List.mem_append.1 h with h | h
+      · exact seen_mono hm0 (ih.dl i τ v h)
+      · simp only [List.mem_singleton, Prod.mk.injEq] at h
+        obtain ⟨_, rfl, _⟩ := h
+        exact seen_mono hm0 (ih.buf i0 hi0 e0 he0 (hdel.1.trans hP0.cID))
+    · intro i hi e he hid
+      refine seen_mono hm0 (ih.buf i hi e ?_ hid)
+      by_cases hi0' : i = i0
+      · subst hi0'
+        have : e ∈ (upd s.st i _ i).deliverBuf := he
+        rw [upd_same] at this
+        exact hsub e this
+      · have : e ∈ (upd s.st i0 _ i).deliverBuf := he
+        rw [upd_ne _ _ _ _ hi0'] at this; exact this
+    · intro hf l hl dst m hlog ha hid
+      obtain ⟨v, hv⟩ := ih.ldel hf l hl dst m hlog ha hid
+      exact ⟨v, List.mem_append_left _ hv⟩
+  | disp i0 hi0 l0 msg hl0 hin q' sd o hD =>
+    obtain ⟨k1, k2⟩ := hD.dob_kind
+    have hP0 := hI.parties i0 hi0
+    refine ⟨?_, ?_, ?_⟩
+    · intro i τ v h
+      cases ho : o with
+      | delivered who m =>
+        rw [ho] at h
+        rcases List.mem_append.1 h with h | h
+        · exact seen_mono hm0 (ih.dl i τ v h)
+        · simp only [List.mem_singleton, Prod.mk.injEq] at h
+          obtain ⟨_, rfl, _⟩ := h
+          obtain ⟨hsrc, hid⟩ := k2 who m ho
+          exact src_seen hy hI ih hi0 hl0 hin hD hI' (hid.trans hP0.cID) hsrc
+      | idle => rw [ho] at h; exact seen_mono hm0 (ih.dl i τ v h)
+      | threw => rw [ho] at h; exact seen_mono hm0 (ih.dl i τ v h)
+    · intro i hi e he hid
+      by_cases hi0' : i = i0
+      · subst hi0'
+        have : e ∈ (upd s.st i q' i).deliverBuf := he
+        rw [upd_same] at this
+        rcases k1 e this with h | ⟨rfl, hsrc⟩
+        · exact seen_mono hm0 (ih.buf i hi e h hid)
+        · exact src_seen hy hI ih hi hl0 hin hD hI' hid hsrc
+      · have : e ∈ (upd s.st i0 q' i).deliverBuf := he
+        rw [upd_ne _ _ _ _ hi0'] at this
+        exact seen_mono hm0 (ih.buf i hi e this hid)
+    · intro hf l hl dst m hlog ha hid
+      rcases List.mem_append.1 hlog with h | h
+      · obtain ⟨v, hv⟩ := ih.ldel hf l hl dst m h ha hid
+        exact ⟨v, dlAfter_mono _ _ _ _ _ hv⟩
+      · obtain ⟨rfl, h2⟩ := mem_tagMsgs.1 h
+        obtain ⟨wf, _, htag, hmid, _, _, hcond⟩ := hD.ldel_sent _ h2 ha
+        have hP := hI.parties l hl
+        rcases hcond with ⟨_, hlt⟩ | hnf
+        swap
+        · rw [hP.cfifo, hf] at hnf; cases hnf
+        obtain ⟨w0, w1, w2⟩ := wf
+        rw [hP.cn] at w1
+        have htid : msg.tag.id = c.ID := by
+          show msg.id = c.ID
+          rw [← hmid]; exact hid
+        obtain ⟨v, hv⟩ := hP.fifoDel hf msg.tag htid w0 w1 w2 hlt
+        have htag' : m.tag = msg.tag := htag
+        rw [htag']
+        exact ⟨v, dlAfter_mono _ _ _ _ _ hv⟩
 
 end Tmcg.Rbc
